@@ -1,11 +1,12 @@
 //! String-table correspondence harness (C11, and the table oracle of C17).
 //!
-//! stdin: one case per line `<project_dir>\t<out_dir>`
+//! stdin: one case per line `<project_dir>\t<out_dir>[\t<project_dir of an earlier generation into the same out_dir>]`
 //! stdout: one line per case, records separated by `;`, fields by a space:
 //!   `R OK` | `R ERR <hex of the error text>` | `R PANIC`
 //!   `U <ns|-> <locale> <top_locale_string_count> <n> <hexstr>*n`          table of one translation unit
 //!   `T <ns|-> <locale> <tree>`                                            value tree of that unit, see `dump_group`
 //!   `I <ns|-> <kinds>`                                                    final InterpolOrLit of every key, see `dump_kinds`
+//!   `P OK` | `P ERR <hex>` | `P PANIC`                                    result of the earlier generation, if any
 //!   `W OK` | `W ERR <hex>` | `W PANIC`                                    result of write_to_dir
 //!   `F <hex of relative path> <hex of the file's bytes>`                  every file found below <out_dir>
 //! strings are printed as `s` followed by the code points in hex joined by `.`
@@ -161,7 +162,7 @@ fn walk_files(root: &Path, dir: &Path, out: &mut Vec<(String, Vec<u8>)>) {
     }
 }
 
-fn run_case(project: &str, out_dir: &str) -> String {
+fn run_case(project: &str, out_dir: &str, previous: Option<&str>) -> String {
     let mut out = String::new();
     let parsed = catch_unwind(AssertUnwindSafe(|| parse_locales(true, Some(PathBuf::from(project)))));
     match parsed {
@@ -184,6 +185,18 @@ fn run_case(project: &str, out_dir: &str) -> String {
     }
     // the build helper, exactly as a build.rs calls it
     let _ = std::fs::remove_dir_all(out_dir);
+    if let Some(prev) = previous {
+        // an earlier generation into the SAME directory (a build.rs is run again whenever a locale file changes)
+        let p = catch_unwind(AssertUnwindSafe(|| -> Result<(), String> {
+            let infos = TranslationsInfos::parse_at_dir(prev).map_err(|e| e.to_string())?;
+            infos.get_translations().write_to_dir(out_dir).map_err(|e| e.to_string())
+        }));
+        match p {
+            Err(_) => out.push_str(";P PANIC"),
+            Ok(Err(e)) => write!(out, ";P ERR {}", hs(&e)).unwrap(),
+            Ok(Ok(())) => out.push_str(";P OK"),
+        }
+    }
     let w = catch_unwind(AssertUnwindSafe(|| -> Result<(), String> {
         let infos = TranslationsInfos::parse_at_dir(project).map_err(|e| e.to_string())?;
         infos.get_translations().write_to_dir(out_dir).map_err(|e| e.to_string())
@@ -220,6 +233,6 @@ fn main() {
             println!("R BADCASE");
             continue;
         };
-        println!("{}", run_case(project, out_dir));
+        println!("{}", run_case(project, out_dir, it.next().filter(|p| !p.is_empty())));
     }
 }
